@@ -102,6 +102,19 @@ Theorem C10_kernel_hypothesis_inhabited : kernel_ext kz.
 Proof. exact kz_ext. Qed.
 Print Assumptions C10_kernel_hypothesis_inhabited.
 
+(* the shared rule of jnp.sum/max/min/amax/amin/any/all (register_reduction_batch_rule): for every rank, axis list (or None),
+   keepdims and batch dim the result, with batch dim 0, is the stack of per-example reductions *)
+Theorem C10_reduction_batch_rule_correct : forall (A : Type) (rk : rkernel A) axes keep (x : tensor A) d,
+  rkernel_ext rk -> d < rank x ->
+  teq (front (snd (reduction_batch_rule rk axes keep x d)) (fst (reduction_batch_rule rk axes keep x d)))
+      (vmap_spec1 (reduce_axes rk axes keep) x d).
+Proof. exact @reduction_batch_rule_correct. Qed.
+Print Assumptions C10_reduction_batch_rule_correct.
+
+Theorem C10_reduction_kernel_hypothesis_inhabited : rkernel_ext rkz.
+Proof. exact rkz_ext. Qed.
+Print Assumptions C10_reduction_kernel_hypothesis_inhabited.
+
 (* ------------------------------------------------------------------ jit / nested jit / custom_jvp / custom_vjp / checkpoint *)
 Theorem C10_alpha_inline_ok : forall rho reg bi body bo c e,
   injective rho -> reg_equivariant rho reg -> ren_ctx rho c = c -> ren_eqn rho e = e ->
@@ -175,6 +188,10 @@ Print Assumptions C10_forwarding_allow_block_disjoint.
 Theorem C10_derived_rule_is_jax_rule : forall (F R : Type) (D : F -> R) (impl orig : F), impl = orig -> D impl = D orig.
 Proof. exact @derived_rule_is_jax_rule. Qed.
 Print Assumptions C10_derived_rule_is_jax_rule.
+
+Theorem C10_derived_jvp_helper_is_jax_jvp : derived_jvp_helper_shape_checked = true.
+Proof. exact derived_jvp_helper_is_jax_jvp. Qed.
+Print Assumptions C10_derived_jvp_helper_is_jax_jvp.
 
 (* every plugin with a HAND-WRITTEN jvp / transpose rule (AST inventory) has a boundary test family *)
 Theorem C10_handwritten_rules_have_boundary_tests :
